@@ -52,6 +52,20 @@ def contracts():
         track_log=True, log_names=["nowiki_quote", "_save_value", "group"],
         ensures=["logged('nowiki_quote') == 0", "logged('_save_value') == 1", "call_arg('_save_value', 0, 0) == 'N'",
                  "call_arg('_save_value', 0, 2) == True", "logged('group') == 1", "call_arg('group', 0, 0) == 1"]))
+    # preprocess_text: the nowiki pairs are cut out of the text exactly as given (nothing rewrites the text before the
+    # first substitution), the three substitutions are chained and the result of the last one is returned
+    cs.append(Contract(
+        target="core:Wtp.preprocess_text", variant="dataflow", prop="C15", mode="frame", params={"text": "str"},
+        track_log=True, log_names=["re.sub"],
+        ensures=["logged('re.sub') == 3",
+                 "same_object(call_arg('re.sub', 0, 2), text)",
+                 "same_object(call_arg('re.sub', 1, 2), call_result('re.sub', 0))",
+                 "same_object(call_arg('re.sub', 2, 2), call_result('re.sub', 1))",
+                 "same_object(result, call_result('re.sub', 2))",
+                 "call_arg('re.sub', 2, 1) == ''"],
+        drift=[f"call_arg('re.sub', {i}, 0) == {p_!r}" for i, p_ in enumerate(
+            (r"(?si)<nowiki\s*>(.*?)</nowiki\s*>", r"(?si)<nowiki\s*/>", r"(?s)\n?<!--.*?-->"))],
+        assumed=["re.sub is CPython's; the three pattern texts are pinned (a changed text makes the check undecided)"]))
     # nowiki_quote: total (every match of the alternation regex is a key of the map: F obligation in checks/c15.py)
     return cs
 
